@@ -51,7 +51,13 @@ case "$cmd" in
   qstat) cat "$ctl/qstat.xml";;
   bjobs) for a in "$@"; do id="$a"; done
          awk -v id="$id" '$1==id {print $2}' "$ctl/bjobs.tbl";;
-  scancel|qdel|bkill) echo ok > "$c.res";;
+  scancel|qdel|bkill) for a in "$@"; do id="$a"; done
+         if [ -f "$ctl/refuse" ] && grep -qx "$id" "$ctl/refuse"; then
+           echo rejected > "$c.res"
+           if [ "$cmd" = "scancel" ]; then echo "scancel: error: Kill job error on job id $id: Invalid job id specified" >&2; exit 0; fi
+           echo "$cmd: job $id cannot be deleted" >&2; exit 1
+         fi
+         echo ok > "$c.res";;
 esac
 exit 0
 """
@@ -179,6 +185,9 @@ class Sandbox:
                 os.remove(os.path.join(self.ctl, "n." + c))
             except FileNotFoundError:
                 pass
+
+    def set_refuse(self, ids):
+        self._w("refuse", "".join("%s\n" % i for i in ids))
 
     def clear_fault(self):
         try:
